@@ -607,7 +607,7 @@ fn gen_deal(r: &mut Rng, env: &Env, epoch: i64, provider: usize, ctx: &GenCtx) -
         if r.chance(1, 3) { d.client_key_form = !d.client_key_form; }
         return d;
     }
-    let start = epoch + *r.pick(&[0i64, 0, 1, 1, 2, 5, 20, 300]);
+    let start = epoch + *r.pick(&[0i64, 1, 2, 5, 20, 300, 300, 2000]);
     let dur = DUR_MIN + *r.pick(&[0i64, 0, 1, 7, 1000]);
     let mut d = DealSpec {
         client: r.below(env.clients.len() as u64) as usize,
@@ -660,6 +660,40 @@ fn interesting_epochs(v: &View) -> Vec<i64> {
     c.into_iter().filter(|e| *e > v.epoch).collect()
 }
 
+/// activation (BatchActivateDeals or SectorContentChanged); `prefer` = ids to activate for real
+fn gen_activation(r: &mut Rng, env: &Env, v: &View, provider: usize, prefer: Option<Vec<u64>>) -> Op {
+    let epoch = v.epoch;
+    let m = &env.miners[provider];
+    let mine: Vec<(&u64, &DealView)> = v.deals.iter().filter(|(_, d)| d.provider == m.id.id().unwrap()).collect();
+    let fresh: Vec<u64> = mine.iter().filter(|(_, d)| d.state.is_none()).map(|(i, _)| **i).collect();
+    let clean = prefer.is_some() && r.chance(3, 4);
+    let caller = if !clean && r.chance(1, 12) { *r.pick(&[env.stranger, m.worker, env.miners[1 - provider].id]) } else { m.id };
+    let nsec = if prefer.is_some() { 1 } else { *r.pick(&[1u64, 1, 1, 2]) };
+    let mut sectors = vec![];
+    let mut pieces = vec![];
+    for _ in 0..nsec {
+        let mut ids: Vec<u64> = prefer.clone().unwrap_or_default();
+        let cnt = if prefer.is_some() { if clean { 0 } else { r.below(2) } } else { *r.pick(&[1u64, 1, 2, 3]) };
+        for _ in 0..cnt {
+            let id = match r.below(12) {
+                0 => v.next_id + r.below(2),                                   // never published
+                1 if !v.deals.is_empty() => *r.pick(&v.deals.keys().cloned().collect::<Vec<_>>()), // any live deal
+                2 if v.next_id > 0 => r.below(v.next_id),                      // any id ever used
+                3 if !ids.is_empty() => ids[0],                                // repeated id
+                _ if !fresh.is_empty() => *r.pick(&fresh),
+                _ => r.below(v.next_id + 1),
+            };
+            ids.push(id);
+        }
+        let max_end = ids.iter().filter_map(|i| v.deals.get(i)).map(|d| d.end).max().unwrap_or(epoch + DUR_MIN);
+        let expiry = max_end + if clean { *r.pick(&[0i64, 100]) } else { *r.pick(&[0i64, 0, 1, 100, 100, 1000, -1, -1000]) };
+        let sector = *r.pick(&[1u64, 2, 3]);
+        pieces.push((sector, expiry, ids.iter().map(|i| (*i, if !clean && r.chance(1, 8) { 1 + r.below(3) as u8 } else { 0 })).collect::<Vec<_>>()));
+        sectors.push((sector, expiry, ids));
+    }
+    if r.chance(1, 3) { Op::Scc { caller, sectors: pieces } } else { Op::Activate { caller, sectors } }
+}
+
 fn gen_op(r: &mut Rng, env: &Env, v: &View, ctx: &mut GenCtx) -> Op {
     let epoch = v.epoch;
     // a planned publish: fund the parties to a boundary first, then send it
@@ -674,7 +708,7 @@ fn gen_op(r: &mut Rng, env: &Env, v: &View, ctx: &mut GenCtx) -> Op {
         for (a, n) in need {
             let short = &n - v.avail(a);
             if short.is_positive() && r.chance(4, 5) {
-                let delta: i128 = *r.pick(&[0i128, 0, 0, -1, 1, 1_000_000, 5 * PC_BASE]);
+                let delta: i128 = *r.pick(&[0i128, 0, -1, 1, 1_000_000, 5 * PC_BASE, 5 * PC_BASE, 20 * PC_BASE]);
                 let val = (short + BigInt::from(delta)).max(BigInt::from(1));
                 let val: i128 = val.to_string().parse().unwrap_or(1);
                 let target = Address::new_id(a);
@@ -708,37 +742,10 @@ fn gen_op(r: &mut Rng, env: &Env, v: &View, ctx: &mut GenCtx) -> Op {
         ctx.planned = Some((caller, batch));
         return gen_op(r, env, v, ctx);
     }
-    if k < 38 {
-        // activation (BatchActivateDeals or SectorContentChanged)
+    let fresh_now = v.deals.values().any(|d| d.state.is_none() && d.start >= epoch);
+    if k < 38 || (k >= 62 && k < 78 && fresh_now && r.chance(1, 2)) {
         let provider = r.below(2) as usize;
-        let m = &env.miners[provider];
-        let mine: Vec<(&u64, &DealView)> = v.deals.iter().filter(|(_, d)| d.provider == m.id.id().unwrap()).collect();
-        let fresh: Vec<u64> = mine.iter().filter(|(_, d)| d.state.is_none()).map(|(i, _)| **i).collect();
-        let caller = if r.chance(1, 12) { *r.pick(&[env.stranger, m.worker, env.miners[1 - provider].id]) } else { m.id };
-        let nsec = *r.pick(&[1u64, 1, 1, 2]);
-        let mut sectors = vec![];
-        let mut pieces = vec![];
-        for _ in 0..nsec {
-            let mut ids: Vec<u64> = vec![];
-            let cnt = *r.pick(&[1u64, 1, 2, 3]);
-            for _ in 0..cnt {
-                let id = match r.below(12) {
-                    0 => v.next_id + r.below(2),                                   // never published
-                    1 if !v.deals.is_empty() => *r.pick(&v.deals.keys().cloned().collect::<Vec<_>>()), // any live deal
-                    2 if v.next_id > 0 => r.below(v.next_id),                      // any id ever used
-                    3 if !ids.is_empty() => ids[0],                                // repeated id
-                    _ if !fresh.is_empty() => *r.pick(&fresh),
-                    _ => r.below(v.next_id + 1),
-                };
-                ids.push(id);
-            }
-            let max_end = ids.iter().filter_map(|i| v.deals.get(i)).map(|d| d.end).max().unwrap_or(epoch + DUR_MIN);
-            let expiry = max_end + *r.pick(&[0i64, 0, 1, 100, 100, 1000, -1, -1000]);
-            let sector = *r.pick(&[1u64, 2, 3]);
-            pieces.push((sector, expiry, ids.iter().map(|i| (*i, if r.chance(1, 8) { 1 + r.below(3) as u8 } else { 0 })).collect::<Vec<_>>()));
-            sectors.push((sector, expiry, ids));
-        }
-        return if r.chance(1, 3) { Op::Scc { caller, sectors: pieces } } else { Op::Activate { caller, sectors } };
+        return gen_activation(r, env, v, provider, None);
     }
     if k < 56 {
         let mut ids: BTreeSet<u64> = BTreeSet::new();
@@ -760,7 +767,10 @@ fn gen_op(r: &mut Rng, env: &Env, v: &View, ctx: &mut GenCtx) -> Op {
     }
     if k < 78 {
         let cands = interesting_epochs(v);
-        let to = if !cands.is_empty() && r.chance(5, 6) {
+        let late: Vec<i64> = v.deals.values().flat_map(|d| [d.end - 1, d.end, d.end + 1, d.end + 90_000]).filter(|e| *e > epoch).collect();
+        let to = if !late.is_empty() && r.chance(1, 5) {
+            *r.pick(&late)
+        } else if !cands.is_empty() && r.chance(5, 6) {
             let top = cands.len().min(4) as u64;
             if r.chance(1, 8) { *r.pick(&cands) } else { cands[r.below(top) as usize] }
         } else {
@@ -1237,7 +1247,7 @@ pub fn run(cfg: &RunCfg, which: &str) -> Report {
     rep.nontrivial_rule = "a sequence is non-trivial when at least one deal was published, one was activated and one payment, completion, termination or time-out changed an escrow or removed a deal; distinct = distinct hash of the op lines".into();
     rep.notes.push("verified deals are excluded (verified_deal = false everywhere): datacap side effects belong to C09".into());
     rep.notes.push("OnMinerSectorsTerminate is always sent with epoch = current epoch, as the only real caller (miner::request_terminate_deals) does".into());
-    let (nseq, maxlen) = if cfg.thorough() { (600u64, 220u64) } else { (70, 90) };
+    let (nseq, maxlen) = if cfg.thorough() { (600u64, 220u64) } else { (60, 90) };
     let nseq = nseq * cfg.budget;
     let mut lean = if cfg.use_lean { Some(LeanDriver::spawn("market").expect("lean driver")) } else { None };
     let mut seen = HashSet::new();
@@ -1248,7 +1258,7 @@ pub fn run(cfg: &RunCfg, which: &str) -> Report {
         let env = setup();
         let min_pc = big(&min_provider_collateral(&env));
         assert!(BigInt::from(PC_BASE) >= &min_pc * 2, "PC_BASE below the provider collateral bound {}", min_pc);
-        let mut ctx = GenCtx { cron_heavy: r.chance(1, 3), ..Default::default() };
+        let mut ctx = GenCtx { cron_heavy: r.chance(1, 4), ..Default::default() };
         let mut led = Ledger::default();
         let mut lines: Vec<String> = vec!["init".to_string()];
         let mut agree = true;
@@ -1298,6 +1308,9 @@ pub fn run(cfg: &RunCfg, which: &str) -> Report {
                 if !matches!(op, Op::Advance { .. }) { rep.ops_ok += 1; }
             } else {
                 rep.err(&format!("{}:{}", op_name(&op), exit_class(res.code)));
+                if std::env::var("BA_DEBUG").is_ok() && exit_class(res.code) == "sys" {
+                    eprintln!("sys error {} {:?}: {}", res.code, op, res.message);
+                }
             }
             if res.panicked {
                 let path = write_replay(&prop, &format!("{}-{}", cfg.seed, seq), &replay_hdr, &lines);
@@ -1328,7 +1341,16 @@ pub fn run(cfg: &RunCfg, which: &str) -> Report {
             // ---- branch / progress bookkeeping
             if res.ok() {
                 match &op {
-                    Op::Publish { .. } => published = true,
+                    Op::Publish { deals, .. } => {
+                        published = true;
+                        let new_ids: Vec<u64> = after.deals.keys().filter(|i| !before.deals.contains_key(i)).cloned().collect();
+                        if !new_ids.is_empty() && r.chance(2, 3) {
+                            let take = new_ids.into_iter().filter(|_| r.chance(3, 4)).collect::<Vec<_>>();
+                            if !take.is_empty() {
+                                queue.push(gen_activation(&mut r, &env, &after, deals[0].provider, Some(take)));
+                            }
+                        }
+                    }
                     Op::Activate { .. } | Op::Scc { .. } => {
                         if after.deals.iter().any(|(i, d)| d.state.is_some() && before.deals.get(i).map(|b| b.state.is_none()).unwrap_or(false)) {
                             activated = true;
